@@ -9,6 +9,7 @@ from more_itertools import random_combination_with_replacement, take
 
 from predicate.all_predicate import AllPredicate
 from predicate.generator.helpers import (
+    all_hashable,
     generate_anys,
     generate_ints,
     generate_strings,
@@ -173,8 +174,9 @@ def generate_or(predicate: OrPredicate) -> Iterator:
 def generate_set_of_p(set_of_predicate: SetOfPredicate) -> Iterator:
     predicate = set_of_predicate.predicate
 
-    values = take(10, generate_false(predicate))
+    # a set can only hold the hashable ones
+    values = [value for value in take(10, generate_false(predicate)) if all_hashable((value,))]
     if not values:
-        return  # nothing violates the predicate, so no set violates set_of
+        return  # nothing (hashable) violates the predicate, so no set violates set_of
 
     yield set(random_combination_with_replacement(values, 5))
